@@ -166,8 +166,11 @@ class Flow:
 
     def __init__(self, fn, tracked=(), assume=(), switch_assume=None, markers=None, classify=None,
                  noret=NORET, on_event=None, on_edge=None, init_env=None, start=None, max_nodes=200000,
-                 track_atoms=None, track_markers=(), track_history=False):
+                 track_atoms=None, track_markers=(), track_history=False, prune_fields=False):
         self.fn = fn
+        # prune_fields: also treat atoms over plain data members (no calls) as stable between their evaluation and a re-test,
+        # i.e. assume no callee in between changes them (writes inside this function still kill the fact)
+        self.prune_fields = prune_fields
         self.tracked = set(tracked)
         for nm in self.tracked:
             if nm not in names_in(fn):
@@ -327,6 +330,7 @@ class Flow:
             for name in list(self.track_atoms):
                 if ("@" + name) in env and (self.track_mentions.get(name, set()) & kills):
                     del env["@" + name]
+                    env.pop("@key:" + name, None)
         for name, pred in self.markers.items():
             if pred(ev):
                 facts.add(("P", name))
@@ -427,10 +431,21 @@ class Flow:
                     # (facts about calls or fields may be invalidated by callees, which we do not track)
                     if ("A", E.key(t), not v) in facts and all(
                             n.get("k") in ("lit", "sizeof", "bin", "un", "cast", "icast", "null") or
-                            (n.get("k") == "ref" and n.get("dk") in ("local", "param", "enum"))
+                            (n.get("k") == "ref" and n.get("dk") in ("local", "param", "enum")) or
+                            (self.prune_fields and n.get("k") in ("mem", "this"))
                             for n in E.walk(t)):
                         contradicted = True
                         break
+                if not contradicted and self.prune_fields and self.track_atoms and not self.track_history:
+                    # path-sensitive variant: the same atom (same key, over locals/fields only) was last evaluated to the opposite value on
+                    # *this* path and nothing it mentions was written since (a write would have dropped the tracked value)
+                    for t, v in imp:
+                        k = E.key(t)
+                        for name in self.track_atoms:
+                            if env.get("@" + name) == (not v) and env.get("@key:" + name) == k and all(
+                                    n.get("k") in ("lit", "sizeof", "bin", "un", "cast", "icast", "null", "mem", "this") or
+                                    (n.get("k") == "ref" and n.get("dk") in ("local", "param", "enum")) for n in E.walk(t)):
+                                contradicted = True
                 if contradicted:
                     self.edges_pruned += 1
                     continue
@@ -452,6 +467,7 @@ class Flow:
                     for name, m in self.track_atoms.items():
                         if m(t):
                             env2["@" + name] = v
+                            env2["@key:" + name] = E.key(t)
                             self.track_mentions.setdefault(name, set()).update(E.mentions(t))
                 if self.on_edge:
                     if self.on_edge(b, lab, imp, env2, f2) is False:
